@@ -381,11 +381,49 @@ func c11R14(c *Ctx, r *Report) {
 			}
 		}
 	}
-	if exp == nil || conds == nil || exp.Block() != conds.Block() {
-		r.Undecided(rule, "database/query.parseAndOr / loop state", "the loop variables expectingMore / conditions were not found in one loop header")
+	if exp == nil {
+		r.Undecided(rule, "database/query.parseAndOr / loop state", "the loop variable expectingMore was not found in a loop header")
 		return
 	}
 	hb := exp.Block()
+	if conds != nil && conds.Block() != hb {
+		conds = nil
+	}
+	// without a loop-carried conditions value (the list is captured by a helper closure): an operand was added on a
+	// back edge iff every path of the iteration to it passes an append, or a call of a local closure that appends
+	appends := func(f *ssa.Function) bool { return funcHas(f, 0, func(in ssa.Instruction) bool { return isCallInstrTo("builtin.append")(in) }) }
+	isAdd := func(in ssa.Instruction) bool {
+		ci, ok := in.(ssa.CallInstruction)
+		if !ok {
+			return false
+		}
+		if calleeName(ci.Common()) == "builtin.append" {
+			return true
+		}
+		if cal := staticCallee(ci.Common()); cal != nil && cal.Parent() == fn && appends(cal) {
+			return true
+		}
+		// call through a local variable holding such a closure
+		for _, l := range c.Leaves(ci.Common().Value) {
+			if mc, ok := l.(*ssa.MakeClosure); ok {
+				if f, ok := mc.Fn.(*ssa.Function); ok && f.Parent() == fn && appends(f) {
+					return true
+				}
+			}
+		}
+		return false
+	}
+	var marker ssa.Instruction
+	for _, x := range hb.Instrs {
+		if _, isPhi := x.(*ssa.Phi); !isPhi {
+			marker = x
+			break
+		}
+	}
+	addedOn := func(pred *ssa.BasicBlock) bool {
+		last := pred.Instrs[len(pred.Instrs)-1]
+		return ReachInstr(fn, marker, func(in ssa.Instruction) bool { return in == last }, func(in ssa.Instruction) bool { return isAdd(in) || in == marker }) == nil
+	}
 	n := 0
 	for i := range exp.Edges {
 		pred := hb.Preds[i]
@@ -393,7 +431,12 @@ func c11R14(c *Ctx, r *Report) {
 			continue // entry edge
 		}
 		n++
-		added := conds.Edges[i] != ssa.Value(conds)
+		added := false
+		if conds != nil {
+			added = conds.Edges[i] != ssa.Value(conds)
+		} else {
+			added = addedOn(pred)
+		}
 		v, isC := constBool(exp.Edges[i])
 		cons := fmt.Sprintf("database/query.parseAndOr / loop back-edge #%d (%s)", n, map[bool]string{true: "operand added", false: "connective consumed"}[added])
 		if !isC {
